@@ -88,9 +88,10 @@ Record sort_params := mk_sort_params {
   p_fsv1_arr : range_dir;      (* Frame.sort_values axis 1: 2-D array *)
   p_fsv1_frame : range_dir;    (* Frame.sort_values axis 1: Frame / TypeBlocks columns *)
   p_fsv_desc : bool;           (* Frame.sort_values: order[::-1] when descending *)
-  p_ssv_desc : bool            (* Series.sort_values: order[::-1] when descending *)
+  p_ssv_desc : bool;           (* Series.sort_values: order[::-1] when descending *)
+  p_ssv_len_check : bool       (* Series.sort_values: `if len(cfs_values) != len(self.values): raise RuntimeError` under `if key:` *)
 }.
 
 (* what the refinement theorems need the code to say *)
 Definition good_params : sort_params :=
-  mk_sort_params RangeDown RangeDown 1 true RangeDown RangeDown RangeDown RangeDown true true.
+  mk_sort_params RangeDown RangeDown 1 true RangeDown RangeDown RangeDown RangeDown true true true.
